@@ -161,6 +161,37 @@ Section Machine.
     end.
 End Machine.
 
+(** Where list and table nodes may be put.  Unlike the clauses above this is
+    a matter of which operations the handlers choose: the primitives would push
+    any kind anywhere.  [guard] is what the handlers are expected to respect -
+    a node is only pushed onto a permitted parent and no text is appended to a
+    LIST node - and [run_guarded] only follows operation sequences that do;
+    Proofs/StackPlacedProofs.v shows that such sequences keep the list and
+    table clauses of well-formedness, and the replay of recorded runs checks
+    that the real handlers' sequences are guarded. *)
+Definition placed_ok (parent k : kind) : bool :=
+  (negb (kind_eqb k LIST_ITEM) || kind_eqb parent LIST) &&
+  (negb (kind_eqb parent LIST) || kind_eqb k LIST_ITEM) &&
+  (negb (is_kind [TABLE_ROW; TABLE_CAPTION] k) || kind_eqb parent TABLE) &&
+  (negb (is_kind [TABLE_CELL; TABLE_HEADER_CELL] k) || kind_eqb parent TABLE_ROW).
+
+Definition guard (st : stack) (o : op) : bool :=
+  match o, st with
+  | OPush k, f :: _ => placed_ok (f_kind f) k
+  | OText _, f :: _ => negb (kind_eqb (f_kind f) LIST)
+  | _, _ => true
+  end.
+
+Section Guarded.
+  Variable fin : text -> text.
+  Variable magic : N -> bool.
+  Fixpoint run_guarded (st : stack) (ops : list op) : option stack :=
+    match ops with
+    | [] => Some st
+    | o :: r => if guard st o then match step fin magic st o with Some st' => run_guarded st' r | None => None end else None
+    end.
+End Guarded.
+
 (** Replaying a recorded run of the real parser (harness/stacktrace.py): the
     operations it performed are run on the model and the result is compared
     with the tree parse_encoded() returned.  [_finalize_expand] substitutes
@@ -203,13 +234,16 @@ Definition fin_of (table : list (N * text)) (s : text) : text :=
 Definition magic_range (c : N) : bool := N.leb 1056829 c.        (* 0x10203D, first character of the placeholder ranges *)
 
 (* 0 = the replay gives the returned tree; 1 = an operation the model cannot perform in that state;
-   2 = the operations do not end with only the root open; 3 = a different tree *)
+   2 = the operations do not end with only the root open; 3 = a different tree; 4 = an operation that puts a list or
+   table node where it must not be (or text into a LIST) *)
 Definition check_trace (table : list (N * text)) (title : text) (ops : list op) (returned : node) : nat :=
   match run (fin_of table) magic_range (init title) ops with
   | None => 1
   | Some st =>
     match result (fin_of table) st with
     | None => 2
-    | Some t => if node_eqb t returned then 0 else 3
+    | Some t => if node_eqb t returned
+                then match run_guarded (fin_of table) magic_range (init title) ops with Some _ => 0 | None => 4 end
+                else 3
     end
   end.
